@@ -325,6 +325,11 @@ def main():
     except extract.ExtractError as e:
         print('MACHINERY: extraction failed (not a verdict): %s' % e); sys.exit(2)
     gen_lines = open(gen).read().split('\n')
+    # numeric sanity check of the trusted axioms (vf/axcheck.py): a mistyped axiom is a wrong assumption, not a verdict
+    import axcheck
+    axs = axcheck.check(open(os.path.join(VF, 'shim.rs')).read()); axs.update(axcheck.check_literals('\n'.join(gen_lines)))
+    if not axs['ok'] or axs['wrong']:
+        print('MACHINERY: an axiom of the trusted shim fails its numeric sanity check (not a verdict): %s' % json.dumps(axs)[:1200]); sys.exit(2)
     lmap = rep['line_map']
     import claims
     if pid not in claims.CLAIMS:
@@ -506,7 +511,7 @@ def main():
                   prerequisite_failures=[dict(module=f['module'], fn=f['fn'], label=f['label'], tags=f['tags']) for f in prereq],
                   undecided_resource_out=[dict(module=f['module'], fn=f['fn']) for f in undecided],
                   known_findings=[k['raw'][:300] for k in known],
-                  bounded=probe, extraction_translation_validation=tv, kani_loop_free_bit_level_proofs=kani, assumed_std_contracts_bounded_check=kani_std, seeded_self_test=st,
+                  bounded=probe, extraction_translation_validation=tv, axioms_numeric_sanity=dict(axioms=len(axs['axioms']), grid_points=axs['grid_points'], literal_axioms=axs['literal_axioms'], ok=True), kani_loop_free_bit_level_proofs=kani, assumed_std_contracts_bounded_check=kani_std, seeded_self_test=st,
                   extraction=dict(functions=len(rep['functions']), verbatim=len([f for f in rep['functions'] if not f['rules']]),
                                   rewritten={'%s::%s' % (f['module'], f['fn']): f['rules'] for f in rep['functions'] if f['rules']}),
                   slowest_functions=sorted([(v['ms'], k) for k, v in fnres.items()], reverse=True)[:8],
